@@ -185,6 +185,7 @@ func cmdCheckC19(tier string, seed uint64, runs int) int {
 	nviol := 0
 	knownSeen := map[string]int{}
 	_ = os.MkdirAll(replaysDir(), 0o755)
+	usedPaths := map[string]bool{}
 	for _, r := range results {
 		evals += r.sum.Cases
 		distinct += r.sum.Distinct
@@ -208,6 +209,10 @@ func cmdCheckC19(tier string, seed uint64, runs int) int {
 			nviol++
 			v["property"] = "C19"
 			path := filepath.Join(replaysDir(), fmt.Sprintf("C19-%v-%d-%v.json", v["adapter"], seed, v["case"]))
+			for n := 2; usedPaths[path]; n++ { // several entry points of one adapter may fail at the same case number
+				path = filepath.Join(replaysDir(), fmt.Sprintf("C19-%v-%d-%v-%d.json", v["adapter"], seed, v["case"], n))
+			}
+			usedPaths[path] = true
 			js, _ := json.MarshalIndent(v, "", " ")
 			_ = os.WriteFile(path, js, 0o644)
 			fmt.Printf("violation: %v %v: %v\n", v["invariant"], v["entry_point"], v["message"])
